@@ -18,7 +18,7 @@ ServerPars == {[kind |-> k, ct |-> c, limit |-> l, cls |-> cl, ret |-> "", statu
                  k \in {"std", "optional"}, c \in CtClasses, l \in {-1, SumData(h) - 1, SumData(h), SumData(h) + 1},
                  cl \in Classes}
 ClientPars == {[kind |-> "", ct |-> c, limit |-> -1, cls |-> cl, ret |-> r, status |-> s] :
-                 c \in {"json", "jsonparams", "octet", "other", "absent"}, cl \in Classes,
+                 c \in {"json", "jsonparams", "octet", "other", "near", "absent"}, cl \in Classes,
                  r \in {"unit", "value", "default", "binary", "optbinary"}, s \in {200, 204}}
 
 (* content class and length must be consistent: "empty" <=> no data *)
@@ -67,7 +67,7 @@ ChunkingIndependence ==
 RECURSIVE SumSeq(_, _)
 SumSeq(s, k) == IF k > Len(s) THEN 0 ELSE s[k] + SumSeq(s, k + 1)
 StrCode(s) == CASE s = "" -> 0 [] s = "std" -> 1 [] s = "optional" -> 2 [] s = "exact" -> 3 [] s = "params" -> 4
-    [] s = "other" -> 5 [] s = "wildcard" -> 6 [] s = "garbage" -> 7 [] s = "absent" -> 8 [] s = "empty" -> 9
+    [] s = "other" -> 5 [] s = "wildcard" -> 6 [] s = "garbage" -> 7 [] s = "absent" -> 8 [] s = "empty" -> 9 [] s = "near" -> 23
     [] s = "doc" -> 10 [] s = "docws" -> 11 [] s = "trailing" -> 12 [] s = "truncated" -> 13 [] s = "malformed" -> 14
     [] s = "unknown" -> 15 [] s = "wrongtype" -> 16 [] s = "json" -> 17 [] s = "jsonparams" -> 18 [] s = "octet" -> 19
     [] s = "unit" -> 20 [] s = "value" -> 21 [] s = "default" -> 22 [] s = "binary" -> 23 [] OTHER -> 24
